@@ -9,6 +9,9 @@
 #include "vh.h"
 #include "venv.h"
 #include "tlsh.h"
+/* exported by the library, not declared in its headers */
+int tls13_record_encrypt(const BLOCK_CIPHER_KEY *key, const uint8_t iv[12], const uint8_t seq_num[8], const uint8_t *record, size_t recordlen, size_t padding_len, uint8_t *enced_record, size_t *enced_recordlen);
+int tls13_record_decrypt(const BLOCK_CIPHER_KEY *key, const uint8_t iv[12], const uint8_t seq_num[8], const uint8_t *enced_record, size_t enced_recordlen, uint8_t *record, size_t *recordlen);
 
 static SM3_HMAC_CTX HM; static SM4_KEY EK, DK; static BLOCK_CIPHER_KEY GK; static uint8_t GIV[12] = { 9, 8, 7, 6, 5, 4, 3, 2, 1, 0, 11, 12 };
 static const uint8_t SEQS[8][8] = { {0,0,0,0,0,0,0,0}, {0,0,0,0,0,0,0,1}, {0,0,0,0,0,0,0,255}, {0,0,0,0,0,0,1,0}, {0,0,0,0,255,255,255,255}, {0,0,0,1,0,0,0,0}, {0,255,255,255,255,255,255,255}, {255,255,255,255,255,255,255,255} };
